@@ -412,6 +412,76 @@ class Names(Family):
         return self.j.judge(self.describe(case), 'E4')
 
 
+LIT_MANT = ['1', '1.2345', '4.75', '.5', '3.', '007', '12345678.9', '0.000123', '0']
+LIT_EXP = ['', 'e0', 'E-3', 'e-7', 'e-14', 'E-20', 'e+5', 'E12', 'e-300', 'e300', 'e-320']
+LIT_SUFFIX = ['', '%', 'k', 'M', 'G', 'T', 'm', 'u', 'n', 'p']
+ALL_SUFFIXES = {'%': 0.01, 'k': 1e3, 'M': 1e6, 'G': 1e9, 'T': 1e12, 'm': 1e-3, 'u': 1e-6, 'n': 1e-9, 'p': 1e-12}
+LIT_FORMS = ['%s', '-%s', '2*%s', '(%s)^1', '%s/7', ' %s ']
+
+
+class Literals(Family):
+    """number literals of every magnitude with every suffix multiplier"""
+    name = 'E5_literals'
+    rule = ('mantissa %r x exponent part %r x suffix %r (all metric suffixes and %% in scope) x forms %r: the value is '
+            'literal x multiplier computed exactly with fractions, compared within relative 1e-12 (results beyond the float '
+            'range: an error or infinity; below it: zero or a denormal)' % (LIT_MANT, LIT_EXP, LIT_SUFFIX, LIT_FORMS))
+
+    def cases(self, tier):
+        for a in range(len(LIT_MANT)):
+            for b in range(len(LIT_EXP)):
+                for c in range(len(LIT_SUFFIX)):
+                    for f in range(len(LIT_FORMS)):
+                        yield (a, b, c, f)
+
+    def text(self, case):
+        a, b, c, f = case
+        return LIT_FORMS[f] % (LIT_MANT[a] + LIT_EXP[b] + LIT_SUFFIX[c])
+
+    def describe(self, case):
+        return self.text(case)
+
+    def check(self, case):
+        from fractions import Fraction
+        a, b, c, f = case
+        s = self.text(case)
+        exact = Fraction(LIT_MANT[a] if not LIT_MANT[a].endswith('.') else LIT_MANT[a] + '0')
+        if LIT_EXP[b]:
+            exact *= Fraction(10) ** int(LIT_EXP[b][1:])
+        if LIT_SUFFIX[c]:
+            exact *= Fraction(ALL_SUFFIXES[LIT_SUFFIX[c]])        # the float multiplier, exactly
+        literal = exact
+        exact = [exact, -exact, 2 * exact, exact, exact / 7, exact][f]
+        try:
+            val, _ = X.evaluator(s, {}, {}, ALL_SUFFIXES)
+            got = ('val', val)
+        except CE.CalcError as e:
+            got = ('err', type(e).__name__)
+        except Exception as e:
+            return Result('raw', True, viol('E5:raw-exception', '%r raised %s: %s' % (s, type(e).__name__, e)))
+        maxf = Fraction(17976931348623157, 10 ** 16) * Fraction(10) ** 308
+        big = abs(exact) > maxf or abs(literal) > maxf          # the literal itself may overflow before it is divided
+        tiny = exact != 0 and abs(exact) < Fraction(1, 10 ** 300)
+        if big:
+            if got[0] == 'val' and not (isinstance(got[1], float) and math.isinf(got[1])):
+                return Result('big', True, viol('E5:finite-value-for-overflow', '%r gave %r' % (s, got[1])))
+            return Result('overflow', True)
+        if got[0] != 'val':
+            return Result('err', True, viol('E5:error-for-valid-literal', '%r raised %s' % (s, got[1]), float(exact), got))
+        v = got[1]
+        if not isinstance(v, (int, float)) or isinstance(v, bool):
+            return Result('type', True, viol('E5:not-a-real-number', '%r gave %r' % (s, v), float(exact), repr(v)))
+        if tiny:
+            ok = abs(v) <= 1e-299
+        elif exact == 0:
+            ok = (v == 0)
+        else:
+            ok = abs(Fraction(v) - exact) <= abs(exact) * Fraction(1, 10 ** 12)
+        if not ok:
+            return Result('wrong', True, viol('E5:wrong-value', '%r evaluates to %r, literal x multiplier is %r' % (s, v, float(exact)),
+                                              float(exact), v))
+        return Result('tiny' if tiny else 'value', True)
+
+
 FRONT = [
     ('', None, 'nan'), ('   ', None, 'nan'), (' \t ', None, 'nan'), ('\n', None, 'nan'),
     ('[1,2]', 0, 'parse'), ('[1,2]', 1, 'val'), ('[[1,2],[3,4]]', 1, 'parse'), ('[[1,2],[3,4]]', 2, 'val'),
@@ -464,5 +534,6 @@ def families(tier):
                      note=' (number-literal characters; % and k are suffixes, e is also a constant)'),
         Chains(),
         Names(),
+        Literals(),
         FrontDoor(),
     ]
